@@ -160,3 +160,55 @@ Lemma code_des_roundtrip_training_and_stretches decompose sp m y zs off vals :
   seq_eq (gen_des_inverse d (gen_des_transform d y)) y /\
   seq_eq (gen_des_inverse d (gen_des_transform d s)) s.
 Proof. intros d s W Hc. split; apply code_des_roundtrip; assumption. Qed.
+
+(* ---- call histories over the regenerated transform / inverse_transform -------------------------- *)
+(* Detrender over an ABSTRACT refitting trend forecaster: FS = forecaster state, ffit / fupdate
+   arbitrary (fupdate may refit or not depending on the flag), fpredict s t = its forecast at the
+   absolute time point t.  After any history, inverse(transform z) = z with the CURRENT trend. *)
+Lemma code_det_roundtrip_after_any_history (FS : Type) (ffit : series -> FS)
+      (fupdate : FS -> series -> bool -> FS) (fpredict : FS -> Z -> Q) h qs z zt :
+  let tr := fun s => gen_det_transform (fpredict s) in
+  let inv := fun s => gen_det_inverse (fpredict s) in
+  forallb is_query qs = true ->
+  answer FS ffit fupdate tr inv h (Transform z) = Some zt ->
+  exists zi, answer FS ffit fupdate tr inv (h ++ Transform z :: qs) (Inverse zt) = Some zi /\
+             seq_eq zi z.
+Proof.
+  intros tr inv. apply (roundtrip_after_any_history FS ffit fupdate tr inv (fun _ => True)); auto.
+  intros s z0 _. exact (proj1 (code_det_roundtrip (fpredict s) z0)).
+Qed.
+
+(* Deseasonalizer / ConditionalDeseasonalizer: fit = des_fit (or cond_fit), update = the
+   regenerated update (whatever the flag), given a decomposition oracle that always returns sp
+   components, none of them zero in the multiplicative case *)
+Lemma code_des_roundtrip_after_any_history decompose sp m h qs z zt :
+  let upd := fun d z (_ : bool) => gen_des_update d z in
+  0 < sp ->
+  (forall y, Z.of_nat (length (decompose m sp (svals y))) = sp) ->
+  (m = Additive \/ forall y, Forall (fun c => ~ c == 0)%Q (decompose m sp (svals y))) ->
+  forallb is_query qs = true ->
+  answer dstate (des_fit decompose sp m) upd gen_des_transform gen_des_inverse h (Transform z)
+    = Some zt ->
+  exists zi, answer dstate (des_fit decompose sp m) upd gen_des_transform gen_des_inverse
+                    (h ++ Transform z :: qs) (Inverse zt) = Some zi /\ seq_eq zi z.
+Proof.
+  intros upd Hsp HL Hc.
+  apply (roundtrip_after_any_history dstate (des_fit decompose sp m) upd gen_des_transform
+           gen_des_inverse (fun d => exists y, d = des_fit decompose sp m y)).
+  - intro y. exists y. reflexivity.
+  - intros s z0 p Hs. exact Hs.
+  - intros s z0 [y ->].
+    apply (code_des_roundtrip decompose sp m y [] z0).
+    + split; cbn [des_fit d_sp d_seasonal]; [exact Hsp|apply HL].
+    + destruct Hc as [Hc|Hc]; [left; exact Hc|right; apply Hc].
+Qed.
+
+Lemma code_transform_restriction d trend keep s :
+  gen_des_transform d (restrict keep s) = restrict keep (gen_des_transform d s) /\
+  gen_des_inverse d (restrict keep s) = restrict keep (gen_des_inverse d s) /\
+  gen_det_transform trend (restrict keep s) = restrict keep (gen_det_transform trend s) /\
+  gen_det_inverse trend (restrict keep s) = restrict keep (gen_det_inverse trend s).
+Proof.
+  rewrite !gen_des_transform_eq, !gen_des_inverse_eq.
+  split; [apply des_restrict|]. split; [apply des_restrict|]. apply det_restrict.
+Qed.
